@@ -467,6 +467,10 @@ impl<'a> Sim<'a> {
             let (fs_arc, now) = {
                 let world = self.world.borrow();
                 let host = world.hosts.get(&addr).expect("missing host");
+                // `since_epoch` reads the host's tokio clock, which is only
+                // virtual inside the runtime context - outside it the real
+                // clock would leak into fs timestamps and io_uring deadlines.
+                let _rt_guard = rt.enter();
                 (Arc::clone(&host.fs), host.timer.since_epoch())
             };
             #[cfg(feature = "unstable-io_uring")]
